@@ -1268,6 +1268,11 @@ func replayC20(c *Ctx, op string, args []string) bool {
 		c20QueueSignals(c)
 	case "typeinfo.cache":
 		c20TypeinfoCache(c)
+	case "cache.fold":
+		seed, _ := strconv.ParseInt(m["seed"], 10, 64)
+		c20FoldRun(c, c20Atoi(m["G"]), c20Atoi(m["n"]), c20Atoi(m["T"]), c20Atoi(m["gmp"]), seed)
+	case "cache.find":
+		c20FindRun(c, strings.Split(m["fields"], ","), m["name"])
 	case "cache.run":
 		seed, _ := strconv.ParseInt(m["seed"], 10, 64)
 		c20CacheRun(c, c20Atoi(m["G"]), c20Atoi(m["T"]), c20Atoi(m["gmp"]), seed)
@@ -1292,6 +1297,21 @@ func genC20(c *Ctx) {
 			gmp = 2
 		}
 		c20CacheRun(c, []int{16, 8, 32}[i%3], c.N(1000, 3000), gmp, c.R.Int63n(1<<40))
+	}
+	// the shared field table under concurrent decoders that spell the tag names in ever new capitalisations
+	for i := 0; i < c.N(4, 16); i++ {
+		ncpu := runtime.NumCPU()
+		gmp := []int{ncpu, 4, 8, 2}[i%4]
+		if gmp > ncpu {
+			gmp = ncpu
+		}
+		if gmp < 2 {
+			gmp = 2
+		}
+		c20FoldRun(c, []int{16, 8, 32, 16}[i%4], c.N(3000, 10000), []int{1, 3, 8, 2}[i%4], gmp, c.R.Int63n(1<<40))
+	}
+	for i := 0; i < c.N(400, 4000); i++ {
+		c20GenFind(c)
 	}
 	// k ≥ 2 consumers verified parked, then back-to-back pushes / a barrier of producers / Close
 	for i := 0; i < c.N(600, 6000) && c20ConfirmedHangs < 2; i++ {
